@@ -1,3 +1,271 @@
-/-! # C13 — property theorems (stub: filled in when the property's model is built) -/
+import ScenicModel.Props.C13Sched
+import ScenicModel.Props.C13Balance
+import ScenicModel.Props.C13Guards
+import ScenicModel.Props.C13Flow
+import ScenicModel.Props.C13Fuel
+import ScenicModel.Gen.Interrupts
+
+/-!
+# C13 — interrupts pre-empt and resume as documented; guards are checked when promised
+
+The theorems of `C13Sched`, `C13Balance`, `C13Guards`, `C13Flow` are stated for an arbitrary configuration
+`cfg : Cfg` with explicit hypotheses on its fields.  Here they are instantiated on `Scenic.Gen.interruptCfg`,
+the configuration regenerated from /repo on every check run (tools/translate/interrupts.py); the hypotheses
+become side conditions decided by the kernel on that data.
+
+Three fields describe repairs of defects found while building this check (findings.d/C13.json); the
+theorems that need them keep them as hypotheses, and the negation witnesses below show on concrete programs
+what goes wrong without them:
+
+* `tiCheckSkipsSub` — invariants are not re-checked by runTryInterrupt while a sub-behaviour is in progress;
+* `nestedFlow`      — `break`/`continue`/`return` in handlers of *nested* try-interrupt statements;
+* `nestedNames`     — a nested statement may have more handlers than the statements at behaviour level.
+-/
 namespace Scenic.C13
+open Scenic.Interrupts Scenic.Gen
+
+/-! ## side conditions on the generated data -/
+
+/-- both tuples handed to runTryInterrupt are reversed (later clauses first), so handler `i` keeps condition `i` -/
+theorem gen_order : interruptCfg.condsReversed = true ∧ interruptCfg.handlersReversed = true := by decide
+
+/-- `isEnabled or isRunning`, first match wins, a finished handler makes the scheduler look again -/
+theorem gen_selection : interruptCfg.useEnabled = true ∧ interruptCfg.useRunning = true ∧
+    interruptCfg.firstWins = true ∧ interruptCfg.finishedContinues = true := by decide
+
+/-- invariant checks: after every yield of runTryInterrupt, after (not before) every emitted invocation,
+    preconditions and invariants at start, always with the agent as argument -/
+theorem gen_checks : interruptCfg.tiCheck = true ∧ interruptCfg.checkAfterInvoke = true ∧
+    interruptCfg.checkBeforeInvoke = false ∧ interruptCfg.startPre = true ∧ interruptCfg.startInv = true ∧
+    tiCheckPassesAgent = true := by decide
+
+/-- `_invokeInner` stops the sub-behaviour in a `finally` -/
+theorem gen_stop : interruptCfg.stopInFinally = true := by decide
+
+/-! ## the property theorems on the generated configuration -/
+
+theorem preempt_latest_enabled (env : Env) (cls : List (Blk K)) (i : Nat)
+    (h : pick interruptCfg env cls.reverse = some i) :
+    i < cls.length ∧ blkActive interruptCfg env (cls.getD (cls.length - 1 - i) default) = true ∧
+      ∀ j, cls.length - 1 - i < j → j < cls.length → blkActive interruptCfg env (cls.getD j default) = false :=
+  Interrupts.preempt_latest_enabled interruptCfg gen_selection.2.2.1 env cls i h
+
+theorem active_means_enabled_or_running (env : Env) (b : Blk K) :
+    blkActive interruptCfg env b = (env.cond b.cond || b.st.isSome) :=
+  blkActive_spec interruptCfg gen_selection.1 gen_selection.2.1 env b
+
+theorem handlers_in_reverse_source_order (conds : List Nat) (codes : List (List L)) (hl : conds.length = codes.length) :
+    zipRuntime interruptCfg conds codes = (conds.zip codes).reverse :=
+  zipRuntime_reverse interruptCfg gen_order.1 gen_order.2 conds codes hl
+
+theorem handler_finished_continues (P : Prog) (env : Env) (fuel self : Nat) (inSub : Bool) (kind : TryKind)
+    (body : Blk K) (hs : List (Blk K)) (l : List L) (c : List Frame) (i : Nat) (lg : List Ev)
+    (hp : pick interruptCfg env hs = some i)
+    (hy : stepBlk interruptCfg P env fuel self (inSubFor inSub kind body hs (some i)) (hs.getD i body) = .done .fin lg) :
+    go interruptCfg P env (fuel + 1) self inSub (.loopTI kind body hs l c)
+      = (go interruptCfg P env fuel self inSub (.loopTI kind body (setSt hs i none) l c)).pre lg :=
+  Interrupts.handler_finished_continues interruptCfg gen_selection.2.2.2 P env fuel self inSub kind body hs l c i lg hp hy
+
+/-- every sub-behaviour in progress inside a generator that concludes (blocks abandoned by abort / break /
+    continue / return / `until`) is stopped; invariant form -/
+theorem abandoned_subs_stopped (P : Prog) (env : Env) (fuel self : Nat) (inSub : Bool) (task : Task) :
+    Bal task.subs (go interruptCfg P env fuel self inSub task) :=
+  balance interruptCfg gen_stop P env fuel self inSub task
+
+theorem abandoned_subs_stopped_run (P : Prog) (envAt : Nat → Env) (fuel main steps : Nat)
+    (hok : (simulate interruptCfg P envAt fuel main steps).outcome = .ok) (b : Nat) :
+    nStart b (simulate interruptCfg P envAt fuel main steps).events.flatten
+      = nStop b (simulate interruptCfg P envAt fuel main steps).events.flatten
+        + (simulate interruptCfg P envAt fuel main steps).pending.count b :=
+  simulate_balance interruptCfg gen_stop P envAt fuel main steps hok b
+
+theorem guards_at_start (P : Prog) (env : Env) (b : Nat) :
+    (startChecks interruptCfg P env b).2 = none ↔ ∀ g ∈ (getBeh P b).pre ++ (getBeh P b).inv, env.guard g = 1 :=
+  start_ok_iff interruptCfg gen_checks.2.2.2.1 gen_checks.2.2.2.2.1 P env b
+
+theorem guards_after_action (a : Nat) : lowerTake interruptCfg a = [L.yld a, L.chk] :=
+  lowerTake_spec interruptCfg gen_checks.2.1 gen_checks.2.2.1 a
+
+theorem guards_after_sub (b : Nat) : lowerDo interruptCfg b none = [L.sub b, L.chk] :=
+  lowerDo_spec interruptCfg gen_checks.2.1 gen_checks.2.2.1 b
+
+theorem guards_on_try_resume (P : Prog) (env : Env) (fuel self : Nat)
+    (kind : TryKind) (body : Blk K) (hs : List (Blk K)) (l : List L) (c : List Frame)
+    (hq : (kindIsDoUntil kind || blkHasSub body || blksHaveSub hs) = false) :
+    go interruptCfg P env (fuel + 1) self false (.resume (.atTry kind body hs l c)) =
+      match invCheck P env self with
+      | (lg, some v) => .viol v lg
+      | (lg, none) => (go interruptCfg P env fuel self false (.loopTI kind body hs l c)).pre lg :=
+  try_resume_checks interruptCfg gen_checks.1 P env fuel self kind body hs l c hq
+
+/-- holds for the code once `tiCheckSkipsSub` is extracted as true (see `legacy_checks_invariant_during_sub`) -/
+theorem guards_not_during_sub (hfix : interruptCfg.tiCheckSkipsSub = true) (P : Prog) (env : Env)
+    (fuel self : Nat) (inSub : Bool) (k : K) (b : Nat) (sub : K) (h : K.subLeaf interruptCfg env k = some (b, sub)) :
+    match go interruptCfg P env fuel self inSub (.resume k) with
+    | .yielded a _ lg =>
+      (∃ fuel' sub', fuel' ≤ fuel ∧ go interruptCfg P env fuel' b false (.resume sub) = .yielded a sub' lg)
+        ∨ SubDone interruptCfg P env b sub
+    | .done _ _ => SubDone interruptCfg P env b sub
+    | _ => True :=
+  no_check_while_sub_runs interruptCfg hfix P env fuel self inSub k b sub h
+
+/-- holds for the code once `nestedFlow` is extracted as true (see the `legacy_nested_*` witnesses) -/
+theorem control_flags_exact (hfix : interruptCfg.nestedFlow = true) (ctx : LCtx) (st : LSt)
+    (body : List Stmt) (hs : List (Nat × List Stmt)) (code : List L) (st' : LSt)
+    (h : lowerS interruptCfg ctx st (.tryI body hs) = some (code, st')) :
+    ∃ fl b codes, code = [L.tryI (.user fl) b (zipRuntime interruptCfg (hs.map (·.1)) codes)] ∧ codes.length = hs.length ∧
+      fl.emitBrk = (escBrkL b || codes.any escBrkL) ∧
+      fl.emitCont = (escContL b || codes.any escContL) ∧
+      fl.retWrap = ctx.inBlock :=
+  lower_try_flags interruptCfg hfix ctx st body hs code st' h
+
+/-! ## concrete runs: satisfiability examples and negation witnesses -/
+
+def envOf (ct gt : List (List Nat)) (t : Nat) : Env :=
+  { cond := fun c => (ct.getD c []).getD t 0 == 1, guard := fun g => (gt.getD g []).getD t 1 }
+
+/-- compile and simulate a surface program: `none` = does not compile -/
+def runS (cfg : Cfg) (p : List SBeh) (ct gt : List (List Nat)) (steps : Nat) : Option (List (Option Nat) × Outcome) :=
+  (lowerProg cfg p).map fun P => let tr := simulate cfg P (envOf ct gt) 200 0 steps; (tr.actions, tr.outcome)
+
+def legacyChecks : Cfg := { Cfg.spec with tiCheckSkipsSub := false }
+def legacyFlow : Cfg := { Cfg.spec with nestedFlow := false }
+def legacyNames : Cfg := { Cfg.spec with nestedNames := false }
+
+/-- `try: do B1() interrupt when c0: take 9` in a behaviour with invariant g0; B1 takes 1, 2, 3 -/
+def progSubInTry : List SBeh :=
+  [ { pre := [], inv := [0], body := [.tryI [.doSub 1 none] [(0, [.take 9])]] },
+    { pre := [], inv := [], body := [.take 1, .take 2, .take 3] } ]
+
+/-- Negation witness (D1): the invariant of the invoking behaviour is false only while the sub-behaviour runs
+    (step 2) and true again when it has finished.  A plain `do B1()` never looks at it then; under
+    try-interrupt the unrepaired runTryInterrupt reports an invariant violation at step 2. -/
+theorem legacy_checks_invariant_during_sub :
+    runS legacyChecks progSubInTry [[0,0,0,0,0]] [[1,1,0,1,1]] 5 = some ([some 1, some 2], .violation ⟨.inv, 0⟩ 2)
+    ∧ runS Cfg.spec progSubInTry [[0,0,0,0,0]] [[1,1,0,1,1]] 5
+        = some ([some 1, some 2, some 3, none, none], .ok) := by
+  constructor <;> decide +kernel
+
+/-- three handlers; priority, pre-emption of a handler by a later clause, resumption, return to the body -/
+def progPriority : List SBeh :=
+  [ { pre := [], inv := [], body :=
+      [.tryI [.take 1, .take 2, .take 3] [(0, [.take 10, .take 11]), (1, [.take 20])], .take 9] } ]
+
+/-- Example (satisfiable hypotheses, all configurations agree): both conditions true at step 2 -> the later
+    clause (20) wins; the earlier handler was pre-empted after 10 and resumes with 11; then the body resumes
+    with 2 where it stopped. -/
+theorem example_priority_and_resumption :
+    runS Cfg.spec progPriority [[0,1,1,0,0,0],[0,0,1,0,0,0]] [] 6
+      = some ([some 1, some 10, some 20, some 11, some 2, some 3], .ok) := by decide +kernel
+
+/-- `for _ in range(3): (try: take 1; take 2 / interrupt when c0: break / interrupt when c1: try: take 3
+    interrupt when c2: take 4); take 8` then `take 9` -/
+def progBreakClobbered : List SBeh :=
+  [ { pre := [], inv := [], body :=
+      [.forN 3 [.tryI [.take 1, .take 2] [(0, [.brk]), (1, [.tryI [.take 3] [(2, [.take 4])]])], .take 8],
+       .take 9] } ]
+
+/-- Negation witness (D3): a nested statement in a later clause resets the outer statement's `usedBreak`:
+    the `break` only aborts the statement and the loop goes on (1 8 1 2 8 1 instead of 1 9). -/
+theorem legacy_nested_break_lost :
+    runS legacyFlow progBreakClobbered [[0,1,0,0,0,0]] [] 6
+      = some ([some 1, some 8, some 1, some 2, some 8, some 1], .ok)
+    ∧ runS Cfg.spec progBreakClobbered [[0,1,0,0,0,0]] [] 6
+      = some ([some 1, some 9, none, none, none, none], .ok) := by
+  constructor <;> decide +kernel
+
+/-- `try: (try: take 1; take 2 / interrupt when c0: return); take 3 / interrupt when c1: take 5`; take 8; take 9 -/
+def progNestedReturn : List SBeh :=
+  [ { pre := [], inv := [], body :=
+      [.tryI [.tryI [.take 1, .take 2] [(0, [.ret])], .take 3] [(1, [.take 5])], .take 8, .take 9] } ]
+
+/-- Negation witness (D4): `return` in a handler of a nested statement only aborts the outer statement. -/
+theorem legacy_nested_return_lost :
+    runS legacyFlow progNestedReturn [[0,1,0,0,0,0]] [] 6
+      = some ([some 1, some 8, some 9, none, none, none], .ok)
+    ∧ runS Cfg.spec progNestedReturn [[0,1,0,0,0,0]] [] 6
+      = some ([some 1, none, none, none, none, none], .ok) := by
+  constructor <;> decide +kernel
+
+/-- `for _ in range(3): (try: (try: take 1; take 2 / interrupt when c0: break) / interrupt when c1: take 5); take 8`; take 9 -/
+def progNestedBreak : List SBeh :=
+  [ { pre := [], inv := [], body :=
+      [.forN 3 [.tryI [.tryI [.take 1, .take 2] [(0, [.brk])]] [(1, [.take 5])], .take 8], .take 9] } ]
+
+/-- Negation witness (D2/D5): `break` in a handler of a nested statement does not even compile
+    ("'break' outside loop"); with the repair it leaves the loop. -/
+theorem legacy_nested_break_does_not_compile :
+    runS legacyFlow progNestedBreak [[0,1,0,0,0,0]] [] 6 = none
+    ∧ runS Cfg.spec progNestedBreak [[0,1,0,0,0,0]] [] 6
+      = some ([some 1, some 9, none, none, none, none], .ok) := by
+  constructor <;> decide +kernel
+
+/-- `try: (try: take 1; take 2; take 3 / interrupt when c0: take 4 / interrupt when c1: take 5) / interrupt when c2: take 6`; take 9 -/
+def progMoreHandlersInside : List SBeh :=
+  [ { pre := [], inv := [], body :=
+      [.tryI [.tryI [.take 1, .take 2, .take 3] [(0, [.take 4]), (1, [.take 5])]] [(2, [.take 6])], .take 9] } ]
+
+/-- Negation witness (D6): a nested statement with more handlers than any statement at behaviour level does
+    not compile ("no binding for nonlocal '_Scenic_interrupt_condition_1'"). -/
+theorem legacy_nested_names_do_not_compile :
+    runS legacyNames progMoreHandlersInside [[0,1,0,0,0,0],[0,0,1,0,0,0],[0,0,0,1,0,0]] [] 6 = none
+    ∧ runS Cfg.spec progMoreHandlersInside [[0,1,0,0,0,0],[0,0,1,0,0,0],[0,0,0,1,0,0]] [] 6
+      = some ([some 1, some 4, some 5, some 6, some 2, some 3], .ok) := by
+  constructor <;> decide +kernel
+
+/-- `while True: (try: do B1() / interrupt when c0: abort); take 9`, B1 does B2, B2 takes 1 2 3 -/
+def progAbortStopsSubs : List SBeh :=
+  [ { pre := [], inv := [], body := [.whileT [.tryI [.doSub 1 none] [(0, [.abort])], .take 9]] },
+    { pre := [], inv := [], body := [.doSub 2 none] },
+    { pre := [], inv := [], body := [.take 1, .take 2, .take 3] } ]
+
+/-- Example: `abort` at step 2 abandons the body, which is two sub-behaviours deep: both are stopped in that
+    step (innermost first), the statement after the try-interrupt runs, and the next loop iteration starts
+    fresh instances. -/
+theorem example_abort_stops_subs :
+    (lowerProg Cfg.spec progAbortStopsSubs).map (fun P =>
+      let tr := simulate Cfg.spec P (envOf [[0,0,1,0,0,0]] []) 200 0 6
+      (tr.actions, tr.events.map fun es => es.filter fun e => match e with | .chk _ _ => false | _ => true))
+    = some ([some 1, some 2, some 9, some 1, some 2, some 3],
+            [[.sstart 1, .sstart 2], [], [.sstop 2, .sstop 1], [.sstart 1, .sstart 2], [], [], []]) := by
+  decide +kernel
+
+/-- Example for `preempt_latest_enabled`: clauses `[c0 (running), c1 (enabled), c2 (neither)]` in source
+    order -> runtime index 1 = clause 1 is picked -/
+example :
+    let env : Env := { cond := fun c => c == 1, guard := fun _ => 1 }
+    let cls : List (Blk K) := [⟨0, [], some (.atYld [] [])⟩, ⟨1, [], none⟩, ⟨2, [], none⟩]
+    pick Cfg.spec env cls.reverse = some 1 := by decide +kernel
+
+/-- Example (hypotheses of `break_effect` / `break_propagates` are satisfiable): a handler `break` whose condition is true -/
+example :
+    let env : Env := { cond := fun _ => true, guard := fun _ => 1 }
+    let hs : List (Blk K) := [⟨0, [L.flow .brk], none⟩]
+    let body : Blk K := ⟨0, [L.yld 1], none⟩
+    pick Cfg.spec env hs = some 0 ∧ allSeq [Frame.seq [L.yld 8]] = true ∧
+    (match stepBlk Cfg.spec [] env 3 0 (inSubFor false (.user ⟨true, false, false⟩) body hs (some 0)) (hs.getD 0 body) with
+      | .done f lg => f == .brk && lg.isEmpty
+      | _ => false) = true := by decide +kernel
+
+/-- Example (hypothesis of `no_check_while_sub_runs`): a behaviour waiting, inside the body of a try-interrupt statement whose
+    handler is not active, for sub-behaviour 1 -/
+example :
+    let env : Env := { cond := fun _ => false, guard := fun _ => 1 }
+    let k : K := .atTry (.user ⟨false, false, false⟩) ⟨0, [], some (.atSub 1 (.atYld [L.yld 2] []) [L.chk] [])⟩ [⟨0, [L.yld 9], none⟩] [] []
+    (K.subLeaf Cfg.spec env k).map (·.1) = some 1 := by decide +kernel
+
+/-- Example (hypothesis of `lower_try_flags`, non-trivial flags): `try: take 1 / interrupt when c0: break` inside a loop
+    compiles, and the re-raising `break` is emitted -/
+example :
+    (lowerS Cfg.spec { inBlock := false, inLoop := true, maxTop := 1 } { usedBrk := false, usedCont := false }
+        (.tryI [.take 1] [(0, [.brk])])).map
+      (fun p => match p.1 with | [L.tryI (.user fl) _ hs] => (fl.emitBrk, fl.emitCont, fl.retWrap, hs.length) | _ => (false, false, false, 0))
+      = some (true, false, false, 1) := by decide +kernel
+
+/-- Example (hypotheses of `start_ok_iff` / `rejection_in_guard_is_violation`): a rejecting invariant -/
+example :
+    let env : Env := { cond := fun _ => false, guard := fun g => if g = 1 then 2 else 1 }
+    let P : Prog := [{ pre := [0], inv := [1], body := [L.yld 1] }]
+    (startChecks Cfg.spec P env 0).2 = some ⟨.inv, 0⟩ ∧ (checkGuards env 0 [0, 1]).2 = false := by decide +kernel
+
 end Scenic.C13
